@@ -133,6 +133,9 @@ def finish_bounded(chk, rnd, thorough):
     from .common import run_native
     t0 = time.time()
     dd = run_native("discovery_harness", {"op": "dotdot"}, timeout=120)
+    if dd.get("unreadable"):
+        chk.undecided.append(f"C13: the JSON report of {len(dd['unreadable'])} command-line run(s) could not be read by the harness "
+                             f"({dd['unreadable'][0][:120]}): nothing is concluded from them")
     chk.finite("cli.each_named_file_gets_its_own_header_verdict", not dd["violations"], dd["cases"],
                {"violations": dd["violations"][:2]}, what=f"header diagnostics of files named in one run: {dd['violations'][:1]}",
                time_s=time.time() - t0)
